@@ -171,6 +171,34 @@ theorem C11_bagof_partition (s : List (Term × Term)) : IsPartition s (groups s)
     rw [(variant_iff _ _).mpr hv] at this
     exact absurd this (by simp)
 
+/-- **C11_bagof_partition** (in terms of the solutions themselves): two solutions of the goal have
+    their copies in the same group iff their witnesses — the values of the free variables in the two
+    solutions — are variants. -/
+theorem C11_bagof_same_group_iff (sols : List (Term × Term)) (n : Nat)
+    (p q : (Term × Term) × (Term × Term))
+    (hp : p ∈ sols.zip (copyPairs sols n).1) (hq : q ∈ sols.zip (copyPairs sols n).1) :
+    (∃ g ∈ groups (copyPairs sols n).1, p.2 ∈ g ∧ q.2 ∈ g) ↔ Variant p.1.1 q.1.1 := by
+  have hcop := (C11_bagof_copies sols n).2.1
+  have hpart := C11_bagof_partition (copyPairs sols n).1
+  have vp := (hcop p hp).2.1
+  have vq := (hcop q hq).2.1
+  constructor
+  · rintro ⟨g, hg, h1, h2⟩
+    exact Variant.trans (Variant.trans vp (hpart.same g hg _ h1 _ h2)) (Variant.symm vq)
+  · intro hv
+    have hcc : Variant p.2.1 q.2.1 := Variant.trans (Variant.trans (Variant.symm vp) hv) vq
+    have mem_group : ∀ c ∈ (copyPairs sols n).1, ∃ g ∈ groups (copyPairs sols n).1, c ∈ g := by
+      intro c hc
+      have := (hpart.perm.mem_iff (a := c)).mpr hc
+      obtain ⟨g, hg, hcg⟩ := List.mem_flatten.mp this
+      exact ⟨g, hg, hcg⟩
+    obtain ⟨g, hg, hpg⟩ := mem_group p.2 (List.of_mem_zip (a := p.1) (b := p.2) hp).2
+    obtain ⟨k, hk, hqk⟩ := mem_group q.2 (List.of_mem_zip (a := q.1) (b := q.2) hq).2
+    rcases pairwise_mem_cases hpart.different g hg k hk with rfl | h | h
+    · exact ⟨g, hg, hpg, hqk⟩
+    · exact absurd hcc (h _ hpg _ hqk)
+    · exact absurd (Variant.symm hcc) (h _ hqk _ hpg)
+
 /-- **D11**: with the pinned `variant` the groups are not the classes: the solutions with witnesses
     `(C,C)` and `(A,B)` (facts `t(1,C,C). t(2,A,B).`, `bagof(X, t(X,Y,Z), L)`) end up in one group. -/
 theorem C11_bagof_partition_witness : ¬ (∀ s, IsPartition s (groupsBy variantPinned s)) := by
